@@ -2,6 +2,7 @@ import UpfVerif.Model.Xlate
 import UpfVerif.Spec.Rules
 import UpfVerif.Spec.Arrange
 import UpfVerif.Lemmas.Xlate
+import UpfVerif.Lemmas.Arrange
 /-
 C02 — PDR and FAR reach the kernel exactly as the SMF specified them.
 
@@ -742,6 +743,25 @@ theorem far_bytes (link seid fl : Nat) (cs : List FarChild) (p : FarSpec) (h : A
     (hl : link < 2 ^ 32) (hs : seid < 2 ^ 64) (hsz : wfList (farReq link seid fl cs).attrs = true) :
     (decodeTree (encList (farReq link seid fl cs).attrs)).map readFar = some (expectFar link seid p) := by
   rw [decodeTree_encList _ hsz]; simp [readFar_attrs link seid cs p h wf hl hs]
+
+/-! ### the run-time predicate is an instance of the theorems
+     (`checkRule` in Driver/Drv.lean extracts the content with `specPdr` / `specFar` and compares `read…` of the
+     implementation's bytes with `expect…`) -/
+
+theorem createPDR_predicate (link seid : Nat) (cs : List PdrChild) (p : PdrSpec) (h : specPdr cs = some p) (wf : p.WF)
+    (hl : link < 2 ^ 32) (hs : seid < 2 ^ 64) :
+    readPdr (createPDR link seid cs).attrs = expectPdr link seid p :=
+  (createPDR_exact link seid cs p (specPdr_arranges cs p h) wf hl hs).2
+
+theorem updatePDR_predicate (link seid : Nat) (cs : List PdrChild) (p : PdrSpec) (h : specPdr cs = some p) (wf : p.WF)
+    (hl : link < 2 ^ 32) (hs : seid < 2 ^ 64) :
+    readPdr (updatePDR link seid cs).attrs = expectPdr link seid p :=
+  (updatePDR_exact link seid cs p (specPdr_arranges cs p h) wf hl hs).2
+
+theorem far_predicate (link seid fl : Nat) (cs : List FarChild) (p : FarSpec) (h : specFar cs = some p) (wf : p.WF)
+    (hl : link < 2 ^ 32) (hs : seid < 2 ^ 64) :
+    readFar (farReq link seid fl cs).attrs = expectFar link seid p :=
+  readFar_attrs link seid cs p (specFar_arranges cs p h) wf hl hs fl
 
 end UpfVerif.C02
 
